@@ -119,6 +119,20 @@ Definition run_c15_dbn (s : sx) : sx :=
   | None => bad_request
   end.
 
+(* [nodes; stored cpds [(id, scope)]; new cpds] -> [out; stored ids afterwards] *)
+Definition sx_dcpd := sx_pair sx_nat (sx_list sx_nat).
+Definition run_c15_dbn_add_cpds (s : sx) : sx :=
+  match s with
+  | SL [ns; cs; new] =>
+      match sx_list sx_nat ns, sx_list sx_dcpd cs, sx_list sx_dcpd new with
+      | Some ns', Some cs', Some new' =>
+          let (r, o) := dbn_add_cpds {| nodes := ns'; edges := [] |} cs' new' in
+          sx_ok (SL [of_out o; of_list of_nat (map fst r)])
+      | _, _, _ => bad_request
+      end
+  | _ => bad_request
+  end.
+
 Definition sx_clique := sx_pair sx_nat (sx_list sx_nat).
 Definition sx_jop (s : sx) : option jop :=
   match s with
